@@ -11,7 +11,9 @@ RULE = ("rule-satisfying documents rendered from the generated schema family (mu
         "type taking the name of an earlier plain / abstract / derived type or of its base; the character-data elements "
         "in every element, with every element among their text or after them (schema documents and imported components); "
         "violating documents and accepted controls for the document element, prefix, second <example>, <import> attributes, "
-        "<multikey default>, top-level items of components, <schema extends> of conflicting bases. "
+        "<multikey default>, top-level items of components, <schema extends> of conflicting bases; every spelling of a default "
+        "('default' attribute, unkeyed / keyed <default> elements and their combinations) on <key> / <multikey>, named / wildcard, "
+        "required or not, at the top level, in plain and derived section types and in components. "
         "non-trivial = a document with >= 1 section type; distinct by document text")
 
 
@@ -367,6 +369,88 @@ def rule_site_docs(rng, sd):
     return out
 
 
+# ------------------------------------------------------------------ every spelling of a default on every kind of key
+# a default can be written as the 'default' attribute and / or as <default> child elements, with or without key=...
+DEFAULT_SPELLINGS = {
+    #  name                  attribute     children
+    "none": (None, ""),
+    "attr": ("v", ""),
+    "attr-empty": ("", ""),
+    "attr-blank": (" ", ""),
+    "elem": (None, "<default>v</default>"),
+    "elem-keyed": (None, "<default key='ab1'>1</default>"),
+    "elems-keyed": (None, "<default key='ab1'>1</default><default key='cd2'>2</default>"),
+    "attr+elem": ("v", "<default>w</default>"),
+    "attr+elem-keyed": ("v", "<default key='ab1'>1</default>"),
+    "attr-empty+elem-keyed": ("", "<default key='ab1'>1</default>"),
+    "elem-keyed+elem": (None, "<default key='ab1'>1</default><default>w</default>"),
+}
+DEFAULT_CONTAINERS = ("schema", "sectiontype", "derived", "derived-keytype")
+
+
+def default_cases():
+    """(element, wildcard?, required?, spelling): the whole table"""
+    return [(el, wild, req, sp) for el in ("key", "multikey") for wild in (False, True) for req in (False, True)
+            for sp in DEFAULT_SPELLINGS]
+
+
+def default_element(el, wild, req, sp, n=""):
+    """the element and the verdict the property's rules give ('no default on a required key; defaults keyed exactly when
+    the key is a wildcard'; default values of a multikey only as <default> elements, docs/schema.dtd), None where the
+    document is refused or accepted by a rule of the code only (a <default> element in a named <key>)"""
+    attr, kids = DEFAULT_SPELLINGS[sp]
+    a = ("name='+' attribute='dfw9%s'" % n) if wild else ("name='dfk9%s'" % n)
+    if req:
+        a += " required='yes'"
+    if attr is not None:
+        a += " default='%s'" % attr
+    elem = "<%s %s>%s</%s>" % (el, a, kids, el) if kids else "<%s %s/>" % (el, a)
+    unkeyed = attr is not None or "<default>" in kids
+    keyed = "<default key=" in kids
+    if req and (unkeyed or keyed):
+        want = "reject"                             # no default on a required key
+    elif el == "multikey" and attr is not None:
+        want = "reject"                             # <!ATTLIST multikey ...>: no 'default'
+    elif wild and unkeyed:
+        want = "reject"                             # defaults keyed ...
+    elif not wild and keyed:
+        want = "reject"                             # ... exactly when the key is a wildcard
+    elif el == "key" and not wild and "<default>" in kids:
+        want = None
+    else:
+        want = "ok"
+    return elem, want
+
+
+def default_docs(rng, sd, cases, containers=DEFAULT_CONTAINERS):
+    """(rule, document, expected verdict or None, case): the key element of each case at the top level of the document
+    (without the family's own wildcard key), in a fresh section type, in a section type derived from one with keys, and in
+    a derived type that states its own key type; the type is used by a section in half of the documents"""
+    d = copy.deepcopy(sd)
+    d.children = [c for c in d.children if not (c.kind == "key" and c.name == "+")]
+    top = F.render_xml(d)
+    host = F.render_xml(sd)
+    out = []
+    for el, wild, req, sp in cases:
+        for con in containers:
+            elem, want = default_element(el, wild, req, sp)
+            use = "  <section type='dft9' name='*' attribute='dfs9'/>\n" if rng.random() < 0.5 else ""
+            if con == "schema":
+                doc = _inject_last(top, "  %s\n" % elem)
+            elif con == "sectiontype":
+                doc = _inject_last(_inject_first(host, "  <sectiontype name='dft9'>%s</sectiontype>\n" % elem), use)
+            else:
+                kt = " keytype='%s'" % rng.choice(["identifier", "basic-key", "ipaddr-or-hostname"]) if con == "derived-keytype" else ""
+                base = rng.choice(["<sectiontype name='dfb9'><key name='k9'/></sectiontype>",
+                                   "<sectiontype name='dfb9'><key name='k9' default='x'/><multikey name='m9'><default>y</default></multikey></sectiontype>",
+                                   "<sectiontype name='dfb9'><key name='+' attribute='bw9'><default key='ab1'>1</default></key></sectiontype>"
+                                   if not wild else "<sectiontype name='dfb9'/>"])
+                doc = _inject_last(_inject_first(host, "  %s\n  <sectiontype name='dft9' extends='dfb9'%s>%s</sectiontype>\n" % (base, kt, elem)), use)
+            rule = "default-spelling:%s%s%s:%s" % (el, "+" if wild else "", "!" if req else "", sp)
+            out.append((rule, doc, want, "%s/%s" % (con, rule)))
+    return out
+
+
 # ------------------------------------------------------------------ a derived type that takes an existing name
 def derived_duplicates(rng, sd, all_textual=False):
     """'unique type names' where the SECOND definition is a derived type (<sectiontype extends=...>): it names an earlier
@@ -452,6 +536,14 @@ def component_docs(rng, pk):
                             ("component-import-file-directory", "<import package='ZConfig.components.basic' file='sub/mapping.xml'/>", None),
                             ("component-import-control", "<import package='ZConfig.components.basic' file='mapping.xml'/>", "ok")):
         sites.append((rule, "<component>\n  %s\n</component>\n" % imp, want))
+    # the spellings of a default on the keys of a component's section types (plain and derived)
+    for el, wild, req, sp in default_cases():
+        elem, want = default_element(el, wild, req, sp)
+        how = rng.choice(["<sectiontype name='cdf9'>%s</sectiontype>",
+                          "<sectiontype name='cdb9'><key name='k9'/></sectiontype>\n  <sectiontype name='cdf9' extends='cdb9'>%s</sectiontype>",
+                          "<sectiontype name='cdf9' extends='nty9' keytype='identifier'>%s</sectiontype>"])
+        sites.append(("component-default-spelling:%s%s%s:%s" % (el, "+" if wild else "", "!" if req else "", sp),
+                      "<component>\n  %s\n</component>\n" % (how % elem), want))
     for rule, text, want in sites:
         name, text = comp(text, raw=True)
         out.append((rule, "<schema>\n%s  <import package='%s'/>\n</schema>\n" % (NEST_TYPE, name), want, {"component.xml": text}))
@@ -697,6 +789,10 @@ def run(ctx):
     for rule, x, want in rule_site_docs(rng, minimal):
         all_docs.append(x)
         judge(ctx, rule, x, want)
+    dcases = default_cases()
+    for rule, x, want, case in default_docs(rng, minimal, dcases):
+        all_docs.append(x)
+        judge(ctx, rule, x, want, {"case": case})
     # ... then inside the documents of the family
     for i in range(n):
         sd = cfggen.gen_schema(rng, handlers=rng.random() < 0.3)
@@ -738,6 +834,12 @@ def run(ctx):
         for rule, x, want in (sites if (ctx.thorough() and i % 10 == 0) else rng.sample(sites, 10)):
             all_docs.append(x)
             judge(ctx, rule, x, want)
+        # every spelling of a default (attribute, <default> elements, keyed or not) on every kind of key: some cases of the table
+        full = ctx.thorough() and i % 20 == 0
+        for rule, x, want, case in default_docs(rng, sd, dcases if full else rng.sample(dcases, 6),
+                                                DEFAULT_CONTAINERS if full else (rng.choice(DEFAULT_CONTAINERS),)):
+            all_docs.append(x)
+            judge(ctx, rule, x, want, {"case": case})
     _import_src_rules(ctx)
     _extends_rules(ctx)
     pk = pkggen.PkgRoot()
